@@ -175,6 +175,14 @@ fn dt_rt(acc: &mut Acc, z: i64, s: u32, f: u32, off: i32) {
                 Ok(p) if p == dt && p.offset().local_minus_utc() == off && p.naive_utc() == dt.naive_utc() => acc.hit(RT),
                 other => acc.violation(&format!("DateTime<FixedOffset>:{}->FromStr", form), format!("{:?}.parse::<DateTime<FixedOffset>>()", txt), format!("Ok({:?})", dt), format!("{:?}", other)),
             }
+            if (-261_000..=261_000).contains(&y) {
+                // the same text read into the other two zone types denotes the same instant
+                acc.transitions += 2;
+                let lu = (txt.parse::<DateTime<chrono::Local>>().map(|x| x.naive_utc()), txt.parse::<DateTime<Utc>>().map(|x| x.naive_utc()));
+                if lu != (Ok(dt.naive_utc()), Ok(dt.naive_utc())) {
+                    acc.violation(&format!("DateTime<Local>/<Utc>:FromStr of the {} text of a DateTime<FixedOffset>", form), format!("{:?}.parse::<DateTime<Local>>() / ::<DateTime<Utc>>()", txt), format!("instant {:?}", dt.naive_utc()), format!("{:?}", lu));
+                }
+            }
         }
     });
     if off < 0 {
